@@ -20,6 +20,8 @@ AE = ['C13', 'C01', 'C05']
 PRE = 'broadcast use vstd::std_specs::btree::group_btree_axioms;\nproof { axiom_name_key(); }'
 R8 = ('RX', 'R8', r'self\.contexts\.borrow_mut\(\)', 'self.contexts', None)
 STACK_SAME = 'final(scope).contexts@ =~= old(scope).contexts@'
+BOXED_CALL = ('ev_value(*function_evaluator, old(scope).contexts@) is FunctionDefinition ==> exists |c: FeelContext| c.0@ == bind_formulas(%s@, old(scope).contexts@, %s@.len() as int) '
+              '&& r == coerced_value(ev_value(*function_evaluator, old(scope).contexts@)->FunctionDefinition_2, body_value(ev_value(*function_evaluator, old(scope).contexts@)->FunctionDefinition_1, old(scope).contexts@.push(c)))')
 
 def FOR_EACH(v):
     # R13: `V.iter().for_each(|(a, b)| STMT);` -> `for (a, b) in V.iter() { STMT; }` (same calls in the same order)
@@ -271,15 +273,23 @@ UNIT = {
          'rewrites': [('R3',), FOR_EACH('parameters'), ('RX', 'R8e', r'\b(evaluator|function_evaluator)\(scope\)', r'\1.call(scope)', 2),
                       ('RX', 'R8e', r'body\.evaluate\(scope\)', 'function_body_evaluate(&body, scope)', 1),
                       ('RX', 'R11', r'FeelContext::default\(\)', 'feel_context_default()', None)],
-         'ensures': [('caller_scope_untouched', STACK_SAME)],
-         'loop_specs': {0: {'invariant': [('scope_not_touched', 'scope.contexts@ == old(scope).contexts@')]}}},
+         'ensures': [('caller_scope_untouched', STACK_SAME),
+                     ('the_function_over_the_bound_formulas_coerced', BOXED_CALL % ('parameters', 'parameters'), ['C04', 'C13']),
+                     ('null_when_not_a_function', '!(ev_value(*function_evaluator, old(scope).contexts@) is FunctionDefinition) ==> r is Null', ['C04', 'C13'])],
+         'loop_specs': {0: {'iter_name': 'it', 'invariant': [('scope_not_touched', 'scope.contexts@ == old(scope).contexts@'),
+                                          ('pairs', 'it.seq().len() == parameters@.len() && forall |j: int| 0 <= j < it.seq().len() ==> *(#[trigger] it.seq()[j]) == parameters@[j]', ['C04']),
+                                          ('formulas_over_the_callers_stack', 'params_ctx.0@ == bind_formulas(parameters@, old(scope).contexts@, it.index@ as int)', ['C04', 'C13'])]}}},
         {'kind': 'closure', 'src': M, 'path': 'fn build_invocation_evaluator', 'name': 'boxed_invocation', 'key': 'purity::model::build_invocation_evaluator', 'props': P, 'auto_props': A, 'loops': 1, 'ret': 'r',
          'lead_params': ['scope: &mut Scope'], 'extra_params': ['bindings: &Vec<(Name, Evaluator)>', 'function_evaluator: &Evaluator'],
          'rewrites': [('R3',), FOR_EACH('bindings'), ('RX', 'R8e', r'\b(evaluator|function_evaluator)\(scope\)', r'\1.call(scope)', 2),
                       ('RX', 'R8e', r'body\.evaluate\(scope\)', 'function_body_evaluate(&body, scope)', 1),
                       ('RX', 'R11', r'FeelContext::default\(\)', 'feel_context_default()', None)],
-         'ensures': [('caller_scope_untouched', STACK_SAME)],
-         'loop_specs': {0: {'invariant': [('scope_not_touched', 'scope.contexts@ == old(scope).contexts@')]}}},
+         'ensures': [('caller_scope_untouched', STACK_SAME),
+                     ('the_function_over_the_bound_formulas_coerced', BOXED_CALL % ('bindings', 'bindings'), ['C04', 'C13']),
+                     ('null_when_not_a_function', '!(ev_value(*function_evaluator, old(scope).contexts@) is FunctionDefinition) ==> r is Null', ['C04', 'C13'])],
+         'loop_specs': {0: {'iter_name': 'it', 'invariant': [('scope_not_touched', 'scope.contexts@ == old(scope).contexts@'),
+                                          ('pairs', 'it.seq().len() == bindings@.len() && forall |j: int| 0 <= j < it.seq().len() ==> *(#[trigger] it.seq()[j]) == bindings@[j]', ['C04']),
+                                          ('formulas_over_the_callers_stack', 'params_ctx.0@ == bind_formulas(bindings@, old(scope).contexts@, it.index@ as int)', ['C04', 'C13'])]}}},
         {'kind': 'fn', 'src': B, 'path': 'fn eval_function_definition', 'key': 'purity::eval_function_definition', 'props': PE, 'auto_props': AE, 'loops': 0, 'ret': 'r',
          'sig_rewrite': [(r'^(\s*)fn ', r'\1pub fn '), (r'scope: &Scope', 'scope: &mut Scope')],
          'rewrites': [('R3',), ('RX', 'R8e', r'body\.evaluate\(scope\)', 'function_body_evaluate(body, scope)', 1)],
@@ -415,3 +425,10 @@ BOUNDED['C01'] = BOUNDED['C01'] + [_PURE]
 BOUNDED['C13'] = BOUNDED.get('C13', []) + [_MODELPURE]
 # C16: the declared parameter type is the one the argument is coerced to, whichever way and order the argument is passed
 BOUNDED['C16'] = [b for b in BOUNDED['C01'] if b['name'] == 'function-invocation-arity']
+# the repeatability clause of C13 (whole histories) has no function-level contract: a bounded stand-in over evaluation sequences
+_REPEAT = {'name': 'same-evaluator-same-inputs-same-value', 'script': 'repeatdiff.py', 'args': [],
+           'functions': ['dmntk_feel_evaluator::prepare + the prepared evaluators', 'ModelEvaluator::evaluate_invocable (decision tables with header cells over the inputs, knowledge models, services)'],
+           'bound': 'about 350 expressions (the case files under replay/cases and recursive functions at depths 5..400) prepared once and evaluated in 4 rounds on one thread, forward and backward: every value equals the value '
+                    'the expression gives in a process of its own; one model evaluator answering sequences of 7..9 input contexts in which contexts recur, for a model of decision tables whose output values / default output '
+                    'entries / allowed input values are expressions over the inputs and for 10 generated requirement graphs: every answer equals the answer of a fresh evaluator for that context alone (about 1 700 evaluations)'}
+BOUNDED['C13'] = BOUNDED.get('C13', []) + [_REPEAT]
